@@ -172,9 +172,11 @@ def run(rep, tier, seed, replay):
         raise core.Inconclusive('design check reports %s (specification and property disagree on the model): %s'
                                 % (res['violated'], res['out'][-1500:]))
     # the known finding must be reachable in the model (ghost taint), otherwise the model lost it
-    fres = core.tlc_check('MC_Groups.tla', 'MC_Groups_finding.cfg', timeout=600)
+    fres = core.tlc_check('MC_Groups.tla', 'MC_Groups_finding.cfg', timeout=600, workers=4)
     rep.cov['design_checks'].append({'config': 'MC_Groups_finding', 'violated': fres['violated'],
                                      'note': 'expected: Raw_SameEpochSame violated (asynchronous StreamDeleted overtaken)'})
+    if 'Raw_SameEpochSame' not in fres['violated']:
+        raise core.Inconclusive('model no longer reproduces the open finding: %s' % fres['out'][-1000:])
     # 2. behaviours: every transition of the small instance + simulation
     g = graph.tlc_dump('MC_Groups.tla', 'MC_Groups_replay.cfg' if quick else 'MC_Groups_replay_thorough.cfg',
                        workers=min(core.NCPU, 8), timeout=1500)
